@@ -115,12 +115,13 @@ func (b ByteSize) ToString(unitRune rune) (string, error) {
 	return fmt.Sprintf("%d%c", size, unitRune), nil
 }
 
+// Finds the largest unit that represents the value exactly, so that the string form reads back to the same value.
 func (b ByteSize) FindLargestFittingUnit() rune {
 	largestUnitSize := int64(1)
 	largestUnitRune := 'B'
 
 	for unitRune, unitSize := range unitRuneMap {
-		if int64(b) < unitSize {
+		if int64(b) < unitSize || int64(b)%unitSize != 0 {
 			continue
 		}
 
